@@ -17,6 +17,7 @@ RULE = (
     "(and a third time, for 8 long histories, under a source whose blocks are pairwise distinct but agree under Adler-32, CRC-32, octet multiset, shared prefixes / suffixes; no draw of a protect call may be shorter than 96 bits). From every emitted blob the GCM nonce, key_info (nonce / ephemeral public key), the CEK (unwrapped with the reference KEK) and the ciphertext are extracted. Oracle: within a history all CEKs, all GCM nonces and all key_infos "
     "are pairwise distinct, equal plaintexts give different ciphertexts, GCM nonce is 12 bytes and the key-id nonce 32. Threads: two OS threads calling the sync protect API at once on one shared cache under a controlled scheduler (baton; scheduling point = every source line of dpapi_ng): every schedule with <=1 preemption (thorough: <=2 at function-entry granularity), same oracle. state = history prefix / schedule; transition = one API call / one scheduling point. Non-trivial = histories with >= 2 protects."
     ' Also histories over {A, N = protect(the latest blob), M = protect(the latest blob + suffix), K = the application keeps DPAPINGBlob.unpack(latest blob) alive, U} up to depth 3 (thorough 4).'
+    ' Long histories include the EMPTY secret in nonce and public-key mode (ZZ, ZAZUZ, AZZA, YY, ZYZY).'
 )
 ASSUME = ["distinctness is demanded, not equality with a logged draw, so an implementation using another OS entropy interface is judged on real randomness (false alarm needs a 96-bit collision)"]
 BOUND = {"quick": "2 thread pairs, preemption bound 1 at line granularity; depth 3 over all 6 ops + depth 4 over the 4 nonce-mode ops", "thorough": "6 thread pairs bound 1 (line), 1 pair bound 2 (function entry); depth 4 over all 6 ops + depth 5 over the 4 nonce-mode ops"}
